@@ -75,13 +75,17 @@ CLAIMED['C16'] = dict(
     note='Trusted: Kani/CBMC; name / attribute stubs. Not covered: the C text of a wrapper beyond built-in type spellings (declarators for pointers, arrays, function pointers, qualifiers), that it compiles against the headers, behavioural equality of wrapper and wrapped function, utils::serialize_items (file assembly), va_list wrappers beyond their registration.',
     ref='DESIGN.md section 3, C16')
 
+CLAIMED['C17'] = dict(
+    text='Reporting level: (1) depfile escaping - the body of DepfileSpec::to_string (which characters are escaped, with what, in which order, the separators, the iteration) with String::replace / format! replaced by a fixed-capacity model: for every target and prerequisite name of 1..4 bytes over printable ASCII (every byte symbolic), one or two prerequisites, the written line reads back through a ninja / cargo style reader to exactly the target and the prerequisites; (2) reporting - real text of CargoCallbacks (one rerun-if-changed line per included file always, per input header iff rerun_on_header_files, one rerun-if-env-changed line per variable; new() reports headers), of the dependency-seeding statement of BindgenContext::new (exactly the input headers), of the announcement loop of Builder::generate (every input header to every callback once) and of the InclusionDirective arm of Item::parse (every named included file to every callback once and into the dependency set).',
+    note='Trusted: Kani/CBMC; the string-engine model (listed rewrites); the reader model. Not covered: that libclang delivers an inclusion directive for every file actually read and no other (the larger half of the property; oracle would be clang -M), String::replace / format! themselves, names longer than 4 bytes or with ":" / newline / non-ASCII, GNU make proper as reader ("#", "$" unescaped).',
+    ref='DESIGN.md section 3, C17')
+
 NOT_APPLICABLE = {
-    'C17': 'the only computation of the property that is separable from libclang is DepfileSpec::to_string, which is String::replace x2 inside format!: not encodable under CBMC in reach (measured: three class-pattern instances of <= 3-byte names each ran into the 1200 s limit; gen/props/c17.py is kept but not registered); completeness/exactness of the file set needs libclang and clang -M',
     'C11': 'quantifies over processes, hash seeds, thread interleavings and in-process histories; Kani has no concurrency/process model and the hash containers whose iteration order matters are exactly what the stub environment replaces (DESIGN.md section 3, C11)',
 }
 
 PENDING = {p: 'planned (DESIGN.md section 3) but its check is not built yet; not claimed until it is' for p in
-           ['C01','C02','C03','C04','C05','C06','C07','C08','C09','C10','C12','C13','C15','C16','C18'] if p not in CLAIMED}
+           ['C01','C02','C03','C04','C05','C06','C07','C08','C09','C10','C12','C13','C15','C16','C17','C18'] if p not in CLAIMED}
 
 
 def main():
